@@ -24,7 +24,9 @@ MIN_EVALUATIONS = {"quick": 1500, "thorough": 40000}
 FIX_OPS = ["+", "-", "*", "/", "//", "%"]
 DECIMALS = ["0.29", "1.1", "0.1", "0.5", "2.5", "3.5", "0.07", "0.57",
             "1.15", "4.35", "0.00001", "0.99999", "-3.00007", "-0.29",
-            "12.34567", "100.001", "-1.5", "7", "1000.5", "0.3", "8.2"]
+            "12.34567", "100.001", "-1.5", "7", "1000.5", "0.3", "8.2",
+            # decimal constants that are whole tens
+            "10", "20", "100", "250", "1000", "-30"]
 
 
 def plan(tier, seed):
